@@ -99,7 +99,7 @@ theorem c05_fresh_roundtrip (cfg : FreshCfg) (inv : Nat) (ls : List Line)
 /-! ## `classify_render` -/
 
 /-- `classify_render`, SavinaLog: every line `name ws Iteration-N: ws D.D ms` (name from `[\w.]+`,
-blanks = spaces / tabs), followed by anything (a carriage return, more text), is classified as the
+blanks = any run of Python white space), followed by anything (a carriage return, more text), is classified as the
 total with the printed value; the counter `N` is ignored -/
 theorem c05_classify_render_savina (x : SavinaLine) (hx : x.Valid) (tail : List Char) :
     classifySavina (x.render ++ tail) = some (ms, .flt (decVal x.ip x.fp)) := by
@@ -145,7 +145,9 @@ theorem c05_classify_render_jmh (x : JMHLine) (hx : x.Valid) (tail : List Char) 
     obtain ⟨hne, hd⟩ := hx.ws3
     cases hw : x.ws3 with
     | nil => exact absurd hw hne
-    | cons d ds => rcases hd d (by simp [hw]) with e | e <;> (subst e; simp [Re.m, stripPrefix])
+    | cons d ds =>
+      have hne : d ≠ '.' := (space_props d (hd d (by simp [hw]))).2.2.2.2.1
+      simp [Re.m, stripPrefix, Ne.symm hne]
   have hm : ∃ g1, reJMH.pmatch (x.render ++ tail) = some [(4, x.unit), (3, x.score), (2, x.n), (1, g1)] := by
     refine ⟨x.head, ?_⟩
     unfold Re.pmatch reJMH reJMHWith JMHLine.render
@@ -556,6 +558,41 @@ example : (XLine.mk "Savina.Chameneos".toList "trace size".toList "    ".toList
   refine ⟨⟨by decide, by decide, by decide⟩, by decide, by decide, by decide, by decide, ?_, by decide,
     by decide, Or.inl rfl⟩
   exact ⟨by decide, (by intro f hf; cases hf), Or.inl (by decide), (by intro e sg ds h; cases h)⟩
+
+/-- `classify_render`, ReBenchLog extra-criterion line after **any** prefix text `w`: it is read as the
+extra-criterion line exactly when the result-line pattern (which is tried first) does not match the
+whole line; that is the case whenever `: iterations=` occurs nowhere in the line -/
+theorem c05_rebench_extra_any_prefix (x : XLine) (hx : x.Valid) (w : List Char)
+    (h : (Re.lit litIter).search (w ++ ':' :: ' ' :: x.body) = false) :
+    classifyRebenchLog (w ++ ':' :: ' ' :: x.body) =
+      some { pre := [], main := { criterion := x.crit, unit := x.unit, value := .flt x.num.value } } := by
+  have h1 : reRebenchLog.pmatch (w ++ ':' :: ' ' :: x.body) = none := by
+    rw [reRebenchLog_eq]; exact rePrefixBody_none notSpace reLogTail _ ((noLit_iff_search _ _).mpr h)
+  have h2 : reRebenchExtra.pmatch (w ++ ':' :: ' ' :: x.body) = some (x.caps []) := by
+    rw [reRebenchExtra_eq]
+    unfold Re.pmatch
+    rw [m_seq]
+    exact rePrefix_word w x.body [] _ _ (x.noPrefix_body hx [] _) (x.body_first hx [])
+  unfold classifyRebenchLog
+  rw [h1]
+  simp only [h2]
+  have c2 : capD (x.caps []) 2 = x.crit := by
+    simp only [capD, XLine.caps, cap]
+    rw [cap_numCaps 4 x.num _ 2 (Or.inl (by omega))]
+    simp [cap]
+  have c3 : capD (x.caps []) 3 = x.num.render := by simp [capD, cap, XLine.caps]
+  have c7 : capD (x.caps []) 7 = x.unit := by simp [capD, cap, XLine.caps]
+  simp [c2, c3, c7, numeralVal_render x.num hx.num]
+
+/-- the hypothesis is decidable for a concrete line; a prefix with colons that satisfies it -/
+example : (Re.lit litIter).search "[12:00:01] INFO: x: y: Savina.Chameneos: trace size:    3903398byte".toList = false := by
+  decide +kernel
+
+/-- … and it cannot be dropped: when the prefix contains a complete result line, the result-line pattern
+matches the whole line and the line means that result (here: total 5 ms), not the criterion `c` -/
+example : classifyRebenchLog "B: iterations=1 runtime: 5ms: N: c: 7kb".toList =
+    some { pre := [], main := { criterion := totalName, unit := ms, value := .flt 5 } } := by
+  decide +kernel
 
 /-- `classify_render`, ValidationLog, the line
 `[prefix: ]name[ crit]: iterations=N runtime: D(m|u)s success: (true|false)`: name and criterion from
